@@ -17,6 +17,7 @@ RULE = ("bases: 23 built-in/custom gates; modifiers: dagger, controlled(1|2), po
         "one-parameter bases the residual is a trigonometric polynomial: certificate grid => all real parameters. non-trivial = chain of length >= 1 whose "
         "last step changes the matrix")
 RULE += ' Also: replace_params with tuples containing exact zeros / ints; bases at special parameter points (identity / Hermitian matrices) and with exact sympy parameters.'
+RULE += ' Round 5: power(1/q) for q up to 1024 over 10 bases.'
 ASSUMPTIONS = ["numpy dense arithmetic; reference expm by Taylor scaling-and-squaring", "base gate matrices are decided by C02",
                "fractional powers and exp are checked at the listed parameter values only (not polynomial)"]
 BOUNDS = {"quick": {"depth": 2, "transcendental_per_chain": 1, "matrix_qubits": 3}, "thorough": {"depth": 3, "transcendental_per_chain": "1 (+ all 180 depth-2 transcendental pairs)", "matrix_qubits": 3}}
